@@ -225,6 +225,36 @@ def release (c : Cfg) (s : State) (srv : Server) : State × String :=
       | some (.notary _) => (s1, ">")
       | _ => (settle c i 3 s1, ".")
 
+/-! ### two concurrent FetchKeys calls on ONE DirectKeyFetcher
+
+`DirectKeyFetcher` has no mutable state of its own: `FetchKeys` builds its result map, queue, wait group and workers per
+call, and the only thing two concurrent calls share is the key client (an oracle).  So the joint state of two calls is
+the pair of their states and a step of the pair is a step of one component.  Each caller has its own context: when it
+ends, that caller's client calls fail from then on — caller A's oracle is therefore a parameter of each of its steps
+(`Move2.a ca`), caller B's context stays live (`cb` fixed). -/
+namespace Two
+
+structure Pair where
+  a : State
+  b : State
+
+inductive Move2 where
+  | a (ca : Cfg) (m : Move)      -- a step of caller A, its key client answering as `ca` does at that moment
+  | b (m : Move)                 -- a step of caller B
+
+def step2 (cb : Cfg) (p : Pair) : Move2 → Option Pair
+  | .a ca m => (step ca p.a m).map (fun a' => { p with a := a' })
+  | .b m => (step cb p.b m).map (fun b' => { p with b := b' })
+
+inductive Reachable2 (ca0 cb : Cfg) (oa ob : List Server) : Pair → Prop where
+  | init : Reachable2 ca0 cb oa ob ⟨init ca0 oa, init cb ob⟩
+  | step {p p' : Pair} (m : Move2) : Reachable2 ca0 cb oa ob p → step2 cb p m = some p' → Reachable2 ca0 cb oa ob p'
+
+/-- the key client as a caller whose context has ended sees it: every call fails -/
+def failing (c : Cfg) : Cfg := { c with direct := fun _ => none, notary := fun _ => none }
+
+end Two
+
 /-! ## getTransport / reaper (fclient/client.go)
 
 `transports` maps a TLS server name to a transport; every access happens between
